@@ -446,6 +446,19 @@ class PropertyRun:
                         info['args'] = to_json(rargs)
                         info['kwargs'] = to_json(rkwargs)
                         break
+            if not viol and hasattr(c, 'replay_variants'):
+                # the solver's model fixes only what the refuted obligation mentions; the contract may offer further
+                # inputs of the same precondition class (e.g. other sizes) to look for a concrete failure
+                for a2, k2 in c.replay_variants(cfg, rargs, rkwargs):
+                    try:
+                        o2, v2 = check_concrete(c, cfg, pyfn, a2, k2)
+                    except Exception:
+                        continue
+                    if v2:
+                        rargs, rkwargs, outcome, viol = a2, k2, o2, v2
+                        info['args'] = to_json(rargs)
+                        info['kwargs'] = to_json(rkwargs)
+                        break
             info['observed'] = outcome[0] if outcome[0] != 'ret' else 'returned'
             info['contract_violations'] = viol
             if viol:
